@@ -108,7 +108,7 @@ theorem step_toTab (st : TSt K V) (ev : Ev K V) : (st.step ev).toTab = Tab.apply
   cases ev with
   | adv => simp [TSt.step, TSt.toTab, Ev.toOp, Tab.apply, Tab.itNext, Tab.itModify]
   | put k v =>
-    simp only [TSt.step, TSt.toTab, Ev.toOp, Tab.apply, Tab.putAux, Tab.reposition, Tab.linkNew]
+    simp only [TSt.step, TSt.toTab, Ev.toOp, Tab.apply, Tab.putAux, Tab.valueChanged, Tab.reposition, Tab.linkNew]
     by_cases hh : has st.m k = true <;> simp [hh]
   | remove k =>
     simp only [TSt.step, Ev.toOp, Tab.apply, Tab.removeKey]
@@ -288,7 +288,7 @@ theorem put_spec {st : TSt K V} (k : K) (v : V) (h : st.WF) :
   rw [shown_eq hw', shown_eq h]
   by_cases hh : has st.m k = true
   · have e : (st.step (.put k v)) = { st with m := setVal st.m k v } := by
-      simp [TSt.step, Tab.putAux, hh, Tab.reposition, TSt.toTab]
+      simp [TSt.step, Tab.putAux, hh, Tab.valueChanged, Tab.reposition, TSt.toTab]
     rw [e]
     unfold TSt.pending
     simp only [dirKeys_setVal]
